@@ -43,3 +43,45 @@ CLAIMS["C17"] = {
     "note": "A connection's credited report is its latest eligible one (a later ineligible report does not withdraw it); transport consistency is read at thin-waist level; listen addresses fixed per history; "
             "one event per quiescence point so the 16-slot queue never drops; ties at the cut are free.",
 }
+
+CLAIMS["C05"] = {
+    "technique": "schedule-generating property-based testing (rapid) of a real swarm over scripted transports on virtual time; history oracles O1-O7",
+    "design_ref": "DESIGN.md section 3, C05",
+    "text": "A real swarm with scripted TCP/QUIC/WebTransport/WebSocket/relay transports runs generated dial schedules inside a synctest bubble: 1-3 peers, address sets with duplicates, shadowed, undialable, DNS and relay "
+            "entries, per-address outcome scripts (succeed/fail/hang/handshake progress, virtual delays), 1-4 callers per peer with start offsets, cancellations, deadlines, force-direct and simultaneous-connect flags, "
+            "caps {1,2,8}x{1,2,160}, two rounds with back-off carry-over. Recorded histories are judged: every caller returns by the horizon; success means an open connection to that very peer (direct when demanded); "
+            "an error means own context / dial timeout ended or every candidate failed, was refused or in back-off (never while a candidate is pending, unattempted or succeeded); each address reaches a transport at most once "
+            "per waiting interval; concurrency measured inside the transport never exceeds the per-peer and FD caps; successes are propagated at once; shared attempts are not cancelled while callers wait; nothing runs after "
+            "the last caller left; token-leak probes (fresh peer and every target peer) find the full caps available again. One genuine defect (FD cap overshoot) was found, shrunk to a witness and repaired. Exploration.",
+    "note": "Scripted transports stand in for real ones; black-hole detection disabled; ranking delays are not asserted; events at one virtual instant race for real and the oracles accept either order.",
+}
+CLAIMS["C08"] = {
+    "technique": "rapid property-based testing with metamorphic mutation of serialized forms, constructed pre-image collisions, every-position sweeps and an independent peer-ID definition; 4 native Go fuzz targets with the same oracle (thorough)",
+    "design_ref": "DESIGN.md section 3, C08",
+    "text": "For all four key types: marshal/unmarshal through every exported path yields an equal key (judged by Equals, byte identity and signature behaviour); signatures verify only under the signer and the signed message; "
+            "IDFromPublicKey equals an independently computed definition (threshold swept with synthetic key lengths) and IDs round-trip through binary, base58, JSON, CIDv1 (7 multibases) and AddrInfo forms. Mutated, spliced, "
+            "foreign-key, foreign-domain and field-edited envelopes, PeerRecords and relay vouchers plus colliding (domain,type,payload) triples for 8 weaker encodings are presented to every receiver: every acceptance must decode to "
+            "exactly a sealed (key,type,payload,requested domain) tuple; both address books accept a peer record only when its PeerID is the signer's ID. 20 of 21 probe mutants detected in the quick tier (the 21st is not a violation). Exploration.",
+    "note": "Trusted: Go crypto, decred secp256k1, protobuf-go, go-cid/multibase/multihash as oracles of their own formats; signature malleability that leaves content, signer and domain unchanged is not a violation; "
+            "RSA/ECDSA key bytes and ECDSA signatures are randomised by Go (verdicts do not depend on them).",
+}
+CLAIMS["C14"] = {
+    "technique": "model-based stateful property testing (rapid state machine vs reference model) on virtual time + bounded-exhaustive enumeration of trim configurations + concurrent histories with an interval-relaxed oracle (race detector in thorough)",
+    "design_ref": "DESIGN.md section 3, C14",
+    "text": "A real BasicConnMgr runs in a synctest bubble with fake connections recording CloseWithError. Generated histories of Connected/Disconnected (several conns per peer, duplicates, unknown conns), tag operations, "
+            "decaying tags, Protect/Unprotect with several tags, clock advances across grace/silence/decay periods (split at every ticker instant), TrimOpenConns and ForceTrim are mirrored into a reference model; after every step "
+            "counts, per-peer connection sets, Value==sum(Tags) and static/decaying values are compared and every batch of closes is judged (no protected/in-grace peer closed by a regular trim, nothing closed at or below low, "
+            "no closed peer outranks a kept eligible peer, eligible peers keep <= low conns, ForceTrim touches protected peers only when every unprotected conn is in the batch). Every multiset of <=3 (thorough <=4) peers over "
+            "value x conns x protected x in-grace x low x trim kind is enumerated. A concurrent property checks interleaving-independent final state and interval-relaxed eligibility. 28/30 probe mutants detected (2 are not violations). Exploration.",
+    "note": "A peer whose age equals the grace period exactly may be treated either way; ForceTrim ignores the grace period as documented; ties, over-trimming, the decay schedule and the timing of background trims are not asserted; watermarks >= 1.",
+}
+CLAIMS["C18"] = {
+    "technique": "rapid property-based testing of generated timelines on virtual time against statement-derived invariants and metamorphic relations (long-running vs restarted vs twin manager); reference-predicate differential for the verifier; loopback end-to-end cases (thorough)",
+    "design_ref": "DESIGN.md section 3, C18",
+    "text": "The real WebTransport certificate manager (build-tag hook) is driven through generated timelines over host keys of all four types (incl. extreme rotation offsets), start instants within ns/ms/skew of the rotation and "
+            "validity boundaries, 0..7+ rollovers, restarts and same-instant twins; at every sample the served certificate must have been valid for >= skew and stay valid >= skew, live <= 14 days, match its key, have its SHA-256 in "
+            "SerializedCertHashes and AddrComponent; every advertisement of the current or previous period must verify it through the real verifyRawCerts; managers with one key serve identical bytes. verifyRawCerts is compared with "
+            "the statement's predicate over generated chains (0/1/2 certs; ECDSA/Ed25519/RSA-PKCS1/RSA-PSS/cross-signed/unparsable; lifetimes around 14 d; validity edges) and hash lists. Thorough: real listener/dialer over loopback "
+            "UDP incl. the Noise early-data confirmation. Two genuine verifier defects found (wrong certificate of the chain pinned; RSA-PSS accepted), repaired, kept as witnesses. 24/25 probe mutants detected (1 not a violation). Exploration.",
+    "note": "Trusted: crypto/x509, sha256, go-multihash, synctest's virtual clock; 'server certificate' = rawCerts[0]; the rotation-offset formula is not asserted; the early-data confirmation is exercised only in the thorough tier.",
+}
